@@ -25,7 +25,12 @@ var (
 )
 
 func StartKeygenCommon(taproot bool, group curve.Curve, participants []party.ID, threshold int, selfID party.ID, privateShare curve.Scalar, publicKey curve.Point, verificationShares map[party.ID]curve.Point) protocol.StartFunc {
+	// decided once, from the arguments: the start function below may run more than once
+	refreshing := privateShare != nil && publicKey != nil
 	return func(sessionID []byte) (round.Session, error) {
+		// work on copies: assigning to the captured arguments would turn a second
+		// invocation of this start function into a refresh of an all-zero key
+		privateShare, publicKey := privateShare, publicKey
 		info := round.Info{
 			FinalRoundNumber: protocolRounds,
 			SelfID:           selfID,
@@ -41,7 +46,7 @@ func StartKeygenCommon(taproot bool, group curve.Curve, participants []party.ID,
 
 		// A refresh is a different protocol from a key generation over the same
 		// parties: it must not share its session tag.
-		if privateShare != nil && publicKey != nil {
+		if refreshing {
 			info.ProtocolID += "-refresh"
 		}
 
